@@ -32,6 +32,7 @@ def _piece_form(dom, i):
 
 MULTILINE = ["L1\n${q0}\nL2", "L1\n${q0}\n${q9}\nL2", "\n${q0}\n", "L1\n  ${q0}  \nL2", "L1\n${q0}", "${q0}\nL2", "L1\n\n${q0}\n\nL2", "L1\n\t${q0}\n\tL2",
              "L1 \n ${q0} \n L2 ${q9}\n", "line one\nline two\nline three", "${q0}\n${q9}", "a\r\n${q0}\r\nb",
+             "${q0}\u3000${q9}", "${q9}\u00a0${q0}", "\u2003${q0}\u2003",
              "para one\n\npara two", "para one\n \npara two ${q0}", "x\u2028y", "x\u0085y ${q0}", "x\u2029\u2029y"]
 
 
@@ -73,6 +74,10 @@ def run(rep):
         for fmt in ("dict", "xlsx"):
             jobs.append({"wb": _multiline_form(t), "fmt": fmt, "parts": ("c01", "c15"), "tag": {"multiline": i}})
     rep.bounds["forms"]["multiline_templates"] = len(MULTILINE)
+    # a JSON-borne dict with numeric cells (choice names, extra choice columns, defaults): numbers become text nodes too
+    numwb = {"sheets": [{"name": "survey", "header": ["type", "name", "label", "default"], "rows": [["select_one L", "s1", "S1", None], ["integer", "n1", "N1", 7], ["decimal", "d1", "D1", 2.5]]},
+                        {"name": "choices", "header": ["list_name", "name", "label", "weight"], "rows": [["L", 1, "One", 10], ["L", 2, "Two", 2.5], ["L", 3, 3, 0]]}]}
+    jobs.append({"wb": numwb, "fmt": "dict_raw", "parts": ("c01", "c15"), "tag": {"numeric_cells": True}})
     # the workbooks the repository's own test-suite converts (frozen input corpus): every accepted one in both print modes
     from harness import suitecorpus
 
